@@ -262,13 +262,16 @@ class Cluster:
 
         while True:
             if task not in self._clusters[c]['tasks']['running']:
-                # THIS CHECK DOESN"T WORK FIX IT SOMEHOW
-                if (machine not in self._clusters[c]['resources'][
-                    'available'] and (machine not in
-                        self._clusters[c]['resources'][
-                            'ingest'] and machine not in
-                        self.get_idle_resources(
-                            observation))):
+                # An ingest task runs on the machine provisioned for it in
+                # the ingest pool; a workflow task needs a machine that is
+                # available or reserved (and idle) for its own observation.
+                if ingest:
+                    if machine not in self._clusters[c]['resources'][
+                            'ingest']:
+                        raise RuntimeError
+                elif (machine not in self._clusters[c]['resources'][
+                    'available'] and machine not in
+                        self.get_idle_resources(observation)):
                     raise RuntimeError
                 if ingest:
                     # Ingest resources allocated separately from scheduler
